@@ -50,6 +50,17 @@ CLAIMS = {
         'technique': 'TLA+ model checking (TLC) + fault/config sweep of the real Rotate + TLC trace validation',
         'design_ref': '5/C19',
     },
+    'C03': {
+        'level': 'model_checking',
+        'text': 'Chunker.tla transcribes the decoder callbacks (per stream / per entry / remote-write with the 1000-point flush) and the chunk builder '
+                '(parallel arrays, series announcement, 1 MiB flush, final flush) with scaled thresholds; TLC checks Faithful (chunks = submitted entries, once, '
+                'in order), SeriesAnnounced, ShapeOK and NoPanic over all body shapes within bounds. Every enumerated body shape is concretised for 11 protocol '
+                'variants (Loki JSON values/entries int/RFC3339/metric, Loki protobuf, Datadog logs/metrics, Influx logs/metrics, OTLP logs, remote write; random key order) '
+                'and parsed by the REAL exported parsers; rows are compared field by field (exact ns, text, float bits, type, per-stream fingerprint, series label documents).',
+        'note': 'thresholds scaled (3 points = 1000, 4 units = 1 MiB); benign label names here (hostile labels: C04); bodies above 1 MiB are capped per protocol in the quick tier.',
+        'technique': 'TLA+ model checking (TLC) + exhaustive replay of TLC-enumerated body shapes into the real parsers',
+        'design_ref': '5/C03',
+    },
 }
 
 NOT_YET = 'check not built yet in this round (planned, see DESIGN.md section 5); not claimed until its machinery runs'
